@@ -113,3 +113,27 @@ Proof.
   rewrite (load_all_none_iff c true st _ _ _ vb); [reflexivity| |exact Hl].
   destruct (f_partial f); [|exact Hin]. apply filter_In. split; [exact Hin|now rewrite Hs].
 Qed.
+
+(* for every history of a read-only wrapper: the wrapped backend and every load through the wrapper are what they would
+   be had the saves through the wrapper never been attempted -- in particular a load sees what reached the backend
+   since the previous load *)
+Lemma ro_run_ignores_wrapper_saves l : forall f,
+  ro_run f l = ro_run f (List.filter (fun s => negb (through_wrapper s)) l).
+Proof.
+  induction l as [|s r IH]; intros f; [reflexivity|].
+  destruct s as [d di| |d di|vbs]; cbn [ro_run List.filter through_wrapper negb].
+  - apply IH.
+  - apply IH.
+  - unfold ro_save. apply IH.
+  - rewrite IH. reflexivity.
+Qed.
+
+Lemma ro_run_load_current l1 vbs l2 f :
+  nth_error (snd (ro_run f (l1 ++ RoLoad vbs :: l2))) (length (snd (ro_run f l1))) = Some (file_load (fst (ro_run f l1)) vbs).
+Proof.
+  revert f. induction l1 as [|s r IH]; intros f.
+  - cbn [app ro_run snd length fst]. destruct (ro_run f l2) as [f' outs]. reflexivity.
+  - destruct s as [d di| |d di|vbs0]; cbn [app ro_run]; try apply IH.
+    specialize (IH f). destruct (ro_run f r) as [f1 o1] eqn:E1.
+    destruct (ro_run f (r ++ RoLoad vbs :: l2)) as [f2 o2] eqn:E2. cbn [snd fst length nth_error] in *. exact IH.
+Qed.
